@@ -426,6 +426,78 @@ def DictRd.getRec (d : DictRd) (rn : Nat) : Res Bytes :=
     | none => .err "invalid-index"
     | some t => .ok t
 
+/-! ### flush-time type consolidation of a column (AppendWipToSegfile → consolidateColumnTypes, segstore.go:342-527)
+
+Modelled for the value class of op `tlv mix`: int64 numbers, strings that are either decimal integers of at
+most 18 digits (`strconv.ParseInt` succeeds, in range) or that neither `ParseInt` nor `ParseFloat` accepts,
+null / absent.  Floats, bools and uint64 are outside the class (FormatFloat / ParseFloat are not modelled). -/
+
+def isDigit (b : Nat) : Bool := 48 ≤ b && b ≤ 57
+
+/-- `strconv.ParseInt(s, 10, 64)` on `-?[0-9]{1,18}`; `none` = not of that form -/
+def parseDec? (s : Bytes) : Option Int :=
+  let neg := s.head? == some 45
+  let ds := if neg then s.drop 1 else s
+  if ds.isEmpty || ds.length > 18 || !ds.all isDigit then none
+  else
+    let n : Nat := ds.foldl (fun a d => 10 * a + (d - 48)) 0
+    some (if neg then - (n : Int) else (n : Int))
+
+def digitsAux : Nat → Nat → Bytes → Bytes
+  | 0, _, acc => acc
+  | f+1, n, acc => if n < 10 then (48 + n) :: acc else digitsAux f (n / 10) ((48 + n % 10) :: acc)
+
+/-- decimal digits of a uint64-sized natural (at most 20 digits) -/
+def decNat (n : Nat) : Bytes := digitsAux 20 n []
+
+/-- `strconv.FormatInt(i, 10)` for an int64 -/
+def decText (i : Int) : Bytes := if i < 0 then 45 :: decNat (-i).toNat else decNat i.toNat
+
+/-- `convertColumnToNumbers`: every string must parse; numbers and back-fills are copied -/
+def toNumbers : List Val → Option (List Val)
+  | [] => some []
+  | v :: vs =>
+    match toNumbers vs with
+    | none => none
+    | some r =>
+      match v with
+      | .str s => (parseDec? s).map (fun i => .num .i64 (i % 18446744073709551616).toNat :: r)
+      | .num .i64 b => some (.num .i64 b :: r)
+      | .num .f64 b => some (.num .f64 b :: r)
+      | .backfill => some (.backfill :: r)
+      | _ => none
+
+/-- `convertColumnToStrings`: int64 → decimal text, bool → "true"/"false" (float64 → FormatFloat is not
+modelled: left as it is, outside the class) -/
+def toStrings (vs : List Val) : List Val :=
+  vs.map (fun v => match v with
+    | .num .i64 b => .str (decText (sext 8 b))
+    | .bool true => .str [116, 114, 117, 101]
+    | .bool false => .str [102, 97, 108, 115, 101]
+    | v => v)
+
+/-- `consolidateColumnTypes` for one column that has both a bloom and a range index -/
+def consolidate (vs : List Val) : List Val :=
+  match toNumbers vs with
+  | some r => r
+  | none => toStrings vs
+
+/-- the column has both a bloom (a string was filled) and a range index (a number was filled) in the block -/
+def isMixed (evs : List (Option Val)) : Bool :=
+  evs.any (fun v => match v with | some (.str _) => true | _ => false) &&
+  evs.any (fun v => match v with | some (.num _ _) => true | _ => false)
+
+/-- record length advertised for the column after the flush: AppendWipToSegfile marks a column that is about
+to be rewritten as inconsistent (fix 59208af) -/
+def storedHint (mixed : Bool) (st : ColSt) : Nat :=
+  if mixed then inconsistent else (seenSize st.firstRec st.sizes).getD inconsistent
+
+/-- the behaviour before fix 59208af: the size seen at ingest was kept -/
+def storedHintOld (_mixed : Bool) (st : ColSt) : Nat := (seenSize st.firstRec st.sizes).getD inconsistent
+
+/-- the column's stored values after the flush -/
+def storedVals (mixed : Bool) (vals : List Val) : List Val := if mixed then consolidate vals else vals
+
 /-! ### timestamp column -/
 
 def u64 : Nat := 18446744073709551616
